@@ -17,6 +17,14 @@
 //     (<function>_loop<n>), the function takes `fuel : nat` and yields an option (None = out of
 //     fuel); `continue` hands the loop state to the next iteration.  Deferred calls run when the
 //     loop hands a result back.
+//   - `break` directly inside an endless loop (units that need it: headers.ReadHeaderInfo): the body
+//     then yields `LRet (inl <loop state>)` for break and `LRet (inr <value>)` for return, and the
+//     statements after the loop are translated in the `inl` branch of the match on forever's result;
+//   - `v, ok := x.(T)` is `"is:<T>" [x]` for ok and `"as:<T>" [x]` for v (the zero value of T when the
+//     assertion fails - decided by the handler); T must be a type the translation represents;
+//   - `var x T` for a type T listed in the unit's zeroObj is `"zero:<T>" []` (a fresh object, as a token),
+//     make(T) for an opaque T is `"make:<T>" []`, x[k] on a token is `"index" [x; k]`;
+//   - a character literal is its code point.
 //
 // Everything else, and every construct not listed, is handled (or refused) by fn.go.
 package main
@@ -67,6 +75,8 @@ func outsideNames(u *unit, files []*ast.File) (map[string]bool, map[string]bool)
 					name := p[strings.LastIndex(p, "/")+1:]
 					if x.Name != nil {
 						name = x.Name.Name
+					} else if m := regexp.MustCompile(`^(.+)\.v[0-9]+$`).FindStringSubmatch(name); m != nil {
+						name = m[1] // gopkg.in/yaml.v1 is package yaml
 					}
 					pkgs[name] = true
 				}
@@ -211,8 +221,11 @@ func (f *fnTr) foreignLit(cl *ast.CompositeLit, en env, k func(val, env) string)
 func (f *fnTr) typeAssert(s *ast.AssignStmt, ta *ast.TypeAssertExpr, en env, cont func(env) string) string {
 	v0, ok0 := s.Lhs[0].(*ast.Ident)
 	okID, ok1 := s.Lhs[1].(*ast.Ident)
-	if !ok0 || !ok1 || v0.Name != "_" || ta.Type == nil {
+	if !ok0 || !ok1 || ta.Type == nil {
 		fail("type assertion form %s", exprString(s.Rhs[0]))
+	}
+	if v0.Name != "_" {
+		return f.typeAssertValue(s, ta, v0, okID, en, cont)
 	}
 	return f.expr(ta.X, en, func(v val, en env) string {
 		switch v.t.k {
@@ -246,10 +259,31 @@ func checkJumps(n ast.Node, what string) {
 			return false
 		}
 		if b, ok := n.(*ast.BranchStmt); ok && (b.Tok != token.CONTINUE || b.Label != nil) {
+			if b.Tok == token.BREAK && b.Label == nil && what == "an endless loop" {
+				return true // where it stands is checked when it is translated (branchStmt)
+			}
 			fail("%s inside %s", b.Tok, what)
 		}
 		return true
 	})
+}
+
+// does the body of an endless loop contain a `break` that belongs to it?  (one inside a nested loop,
+// switch or select belongs to that statement and is refused when it is reached)
+func hasOwnBreak(body *ast.BlockStmt) bool {
+	found := false
+	ast.Inspect(body, func(n ast.Node) bool {
+		switch x := n.(type) {
+		case *ast.FuncLit, *ast.ForStmt, *ast.RangeStmt, *ast.SwitchStmt, *ast.TypeSwitchStmt, *ast.SelectStmt:
+			return false
+		case *ast.BranchStmt:
+			if x.Tok == token.BREAK && x.Label == nil {
+				found = true
+			}
+		}
+		return !found
+	})
+	return found
 }
 
 // switch v { case a, b: A; case c: B; default: C }  ->  if v == a || v == b { A } else if v == c { B } else { C }
@@ -357,8 +391,11 @@ func assignedOuter(body *ast.BlockStmt, name string) bool {
 }
 
 func (f *fnTr) branchStmt(s *ast.BranchStmt, en env) string {
+	if s.Tok == token.BREAK && s.Label == nil && f.breaks && f.inEndless && len(f.loops) == 1 {
+		return "ret (LRet (inl " + f.loopState(en) + "))"
+	}
 	if s.Tok != token.CONTINUE || s.Label != nil || !f.inEndless || len(f.loops) != 1 {
-		fail("statement %s (only `continue` directly inside an endless loop is translated)", s.Tok)
+		fail("statement %s (only `continue`, and `break` of an endless loop, directly inside that loop are translated)", s.Tok)
 	}
 	return "ret (LCont " + f.loopState(en) + ")"
 }
@@ -374,7 +411,8 @@ func (f *fnTr) foreverStmt(s *ast.ForStmt, rest []item, outer env, defers []defe
 	if f.recv != "" {
 		fail("endless loop in a method")
 	}
-	if realStmts(rest) > 0 {
+	breaks := hasOwnBreak(s.Body)
+	if realStmts(rest) > 0 && !breaks {
 		fail("statements after an endless loop")
 	}
 	checkJumps(s.Body, "an endless loop")
@@ -391,11 +429,11 @@ func (f *fnTr) foreverStmt(s *ast.ForStmt, rest []item, outer env, defers []defe
 		stateTypes = append(stateTypes, b.t.coq())
 	}
 	f.loops = append(f.loops, stateNames)
-	f.inEndless, f.endlessEntry = true, len(en)
+	f.inEndless, f.endlessEntry, f.breaks = true, len(en), breaks
 	pat := f.loopState(en)
 	bodyCode := f.block(append(stmts(s.Body.List), item{pop: true}), en.push(), nil)
 	f.loops = f.loops[:len(f.loops)-1]
-	f.inEndless = false
+	f.inEndless, f.breaks = false, false
 
 	stType, unpack := "unit", ""
 	switch len(state) {
@@ -427,6 +465,9 @@ func (f *fnTr) foreverStmt(s *ast.ForStmt, rest []item, outer env, defers []defe
 		}
 	}
 	name := fmt.Sprintf("%s_loop%d", f.coqName, len(f.extra)+1)
+	if breaks {
+		return f.foreverWithBreak(name, params, args, stType, unpack, pat, bodyCode, rest, outer, defers)
+	}
 	f.extra = append(f.extra, fmt.Sprintf("Definition %s {W : Type} (ext : string -> list arg -> W -> Z * W) %s(st : %s) : M W (loopres %s %s) :=\n%s.\n",
 		name, joinSp(params), stType, stType, f.result.coq(), indent(unpack+bodyCode)))
 
@@ -448,4 +489,101 @@ func (f *fnTr) fuelDefinition(s sig, params []string, rt, body string) string {
 	return strings.Join(f.extra, "\n") + "\n" +
 		fmt.Sprintf("Definition %s {W : Type} (ext : string -> list arg -> W -> Z * W) (fuel : nat) %s : M W (option %s) :=\n%s.\n",
 			s.coqName, strings.Join(params, " "), rt, indent(body))
+}
+
+// for { body } with `break`: the body yields LRet (inl state) for break, LRet (inr value) for return;
+// the statements after the loop are the `inl` branch
+func (f *fnTr) foreverWithBreak(name string, params, args []string, stType, unpack, pat, bodyCode string, rest []item, outer env, defers []deferred) string {
+	f.extra = append(f.extra, fmt.Sprintf("Definition %s {W : Type} (ext : string -> list arg -> W -> Z * W) %s(st : %s) : M W (loopres %s (%s + %s)) :=\n%s.\n",
+		name, joinSp(params), stType, stType, stType, f.result.coq(), indent(unpack+bodyCode)))
+	lr, rv := f.newTmp(), f.newTmp()
+	exit := fmt.Sprintf("let %s := r in\n%s", rv, f.finishReturn(rv, outer, defers))
+	after := unpack + f.block(rest, outer, defers)
+	return fmt.Sprintf("%s <- forever fuel (%s ext%s) %s ;;\nmatch %s with\n| None => ret None\n| Some (inr r) => (\n%s\n)\n| Some (inl st) => (\n%s\n)\nend",
+		lr, name, prefixSpace(strings.Join(args, " ")), pat, lr, indent(exit), indent(after))
+}
+
+// 'c'
+func (f *fnTr) charLit(x *ast.BasicLit) val {
+	if !f.u.outside {
+		fail("literal %s", x.Value)
+	}
+	r, _, tail, err := strconv.UnquoteChar(strings.TrimSuffix(strings.TrimPrefix(x.Value, "'"), "'"), '\'')
+	if err != nil || tail != "" {
+		fail("character literal %s", x.Value)
+	}
+	return val{fmt.Sprintf("(%d)", r), ty{k: kInt}}
+}
+
+// make(T) for an opaque type T (a map)
+func (f *fnTr) makeTok0(c *ast.CallExpr, en env, k func(val, env) string) string {
+	t := f.newTmp()
+	return fmt.Sprintf("%s <- call_ext ext %s [] ;;\n%s", t, coqString("make:"+exprString(c.Args[0])), k(val{t, ty{k: kTok}}, en))
+}
+
+// x[key] on a token: the element is asked of the outside world
+func (f *fnTr) indexTok(x *ast.IndexExpr, l val, en env, k func(val, env) string) string {
+	return f.expr(x.Index, en, func(i val, en env) string {
+		switch i.t.k {
+		case kInt, kExt, kTok, kStrTok:
+		default:
+			fail("index %s of %s", exprString(x.Index), exprString(x.X))
+		}
+		t := f.newTmp()
+		return fmt.Sprintf("%s <- call_ext ext \"index\"%%string [AInt %s; %s] ;;\n%s", t, l.code, f.asArg(i, x.Index), k(val{t, ty{k: kExt}}, en))
+	})
+}
+
+// var x T, T a type whose zero value is an object of the outside world
+func (f *fnTr) zeroObjDecl(name *ast.Ident, typ ast.Expr, en env, cont func(env) string) string {
+	cn := f.declName(name)
+	return fmt.Sprintf("%s <- call_ext ext %s [] ;;\n%s", cn, coqString("zero:"+exprString(typ)), cont(en.bind(binding{goName: name.Name, coq: cn, t: ty{k: kTok}})))
+}
+
+// v, ok := x.(T) with T a type the translation represents (int, string, a token type)
+func (f *fnTr) typeAssertValue(s *ast.AssignStmt, ta *ast.TypeAssertExpr, v0, okID *ast.Ident, en env, cont func(env) string) string {
+	if s.Tok != token.DEFINE {
+		fail("type assertion form %s (only `v, ok := x.(T)`)", exprString(s.Rhs[0]))
+	}
+	vt := f.w.goType(ta.Type)
+	switch vt.k {
+	case kInt, kStrTok, kTok, kErr:
+		if vt.unsigned {
+			fail("type assertion to %s", exprString(ta.Type))
+		}
+	default:
+		fail("type assertion to %s", exprString(ta.Type))
+	}
+	if f.sameScope(en, v0.Name) || (okID.Name != "_" && f.sameScope(en, okID.Name)) || v0.Name == okID.Name {
+		fail("type assertion redeclares a variable: %s", exprString(s.Rhs[0]))
+	}
+	return f.expr(ta.X, en, func(v val, en env) string {
+		switch v.t.k {
+		case kErr, kExt, kTok, kStrTok:
+		default:
+			fail("type assertion on %s", exprString(ta.X))
+		}
+		tok, tv := f.newTmp(), f.newTmp()
+		code := fmt.Sprintf("%s <- call_ext ext %s [%s] ;;\n", tok, coqString("is:"+exprString(ta.Type)), f.asArg(v, ta.X))
+		code += fmt.Sprintf("%s <- call_ext ext %s [%s] ;;\n", tv, coqString("as:"+exprString(ta.Type)), f.asArg(v, ta.X))
+		cn := f.declName(v0)
+		code += fmt.Sprintf("let %s := %s in\n", cn, tv)
+		en = en.bind(binding{goName: v0.Name, coq: cn, t: vt})
+		if okID.Name != "_" {
+			on := f.declName(okID)
+			code += fmt.Sprintf("let %s := (z_to_bool %s) in\n", on, tok)
+			en = en.bind(binding{goName: okID.Name, coq: on, t: ty{k: kBool}})
+		}
+		return code + cont(en)
+	})
+}
+
+// the name under which the further results of a two-valued call are asked for: the call's own name
+func (f *fnTr) multiBase(call *ast.CallExpr, en env) string {
+	if sel, ok := call.Fun.(*ast.SelectorExpr); ok && f.u.outside && !f.isOpaque(sel.X, en) && f.translatable(sel.X, en) {
+		if kd := f.kindOf(sel.X, en); kd == kTok || kd == kStrTok {
+			return "obj." + sel.Sel.Name
+		}
+	}
+	return f.path(call.Fun)
 }
